@@ -20,8 +20,14 @@ extern struct vf_input vfin;
 
 void vf_harness(void) {
     const size_t n = VF_N;
-    uint8_t *buf = malloc(n);
-    VF_ASSUME(buf != NULL);
+#ifndef VF_OFF
+#define VF_OFF 0
+#endif
+    /* VF_OFF > 0: the message starts VF_OFF bytes into its heap object, i.e. at an address that is not a multiple of 8
+     * (results must not depend on the buffer's alignment); the object still ends exactly at the last message byte */
+    uint8_t *base = malloc(n + VF_OFF);
+    VF_ASSUME(base != NULL);
+    uint8_t *buf = base + VF_OFF;
     for (size_t i = 0; i < n; i++) buf[i] = vfin.b[i];
 #if VF_ALG == FNV32
     uint32_t got = qhashfnv1_32(buf, n);
@@ -47,7 +53,7 @@ void vf_harness(void) {
 #endif
 #endif
     (void)got;
-    free(buf);
+    free(base);
     VF_REACH("end");
 }
 #include "vf_main.h"
